@@ -20,7 +20,10 @@ struct Export { line: String, steps: Vec<(String, Vec<usize>, usize, usize)>, ru
                 /// number of rules of the checking program (an index >= this names no rule)
                 nrules: usize,
                 /// Rule steps exported as rule steps / left as leaves (rule outside the modelled fragment)
-                rule_steps: usize, rule_steps_leafed: usize }
+                rule_steps: usize, rule_steps_leafed: usize,
+                /// the proof id behind every exported step, and the TermId behind every exported term that exists in the
+                /// proof's own dag (instances built only for the model have none)
+                ids: Vec<ProofId>, term_ids: Vec<Option<TermId>> }
 
 type RRule = egglog::ast::GenericRule<egglog::ResolvedCall, egglog::ResolvedVar>;
 type RAction = egglog::ast::GenericAction<egglog::ResolvedCall, egglog::ResolvedVar>;
@@ -222,7 +225,10 @@ fn export_with(store: &ProofStore, root: ProofId, prog: Option<&ProgView>) -> Op
     if have_rules { let mut lits: Vec<usize> = heads.iter().filter(|(h, _)| h.starts_with("lit:")).map(|(_, i)| *i).collect(); lits.sort();
         rule_text.push_str(&format!(" L {}", if lits.is_empty() { "-".to_string() } else { lits.iter().map(|x| x.to_string()).collect::<Vec<_>>().join(",") })); }
     let line = render(&terms, &steps).replacen("pk check", &format!("pk check{rule_text}"), 1);
-    Some(Export { line, steps, rules, nterms, nrules: rule_toks.len(), rule_steps: rc.exported, rule_steps_leafed: rc.leafed, fiat_steps: rc.fiat, fiat_steps_leafed: rc.fiat_leafed })
+    let mut ids = vec![root; steps.len()]; for (p, i) in &step_ix { ids[*i] = *p; }
+    let orig = store.term_dag().size();
+    let mut term_ids: Vec<Option<TermId>> = vec![None; nterms]; for (t, i) in &term_ix { if (*t as usize) < orig { term_ids[*i] = Some(*t); } }
+    Some(Export { line, steps, rules, nterms, nrules: rule_toks.len(), rule_steps: rc.exported, rule_steps_leafed: rc.leafed, fiat_steps: rc.fiat, fiat_steps_leafed: rc.fiat_leafed, ids, term_ids })
 }
 
 fn render(terms: &[(usize, Vec<usize>)], steps: &[(String, Vec<usize>, usize, usize)]) -> String {
@@ -235,12 +241,25 @@ fn render(terms: &[(usize, Vec<usize>)], steps: &[(String, Vec<usize>, usize, us
 /// everything before the steps: `pk check`, the rules, the terms
 fn term_line(line: &str) -> String { line.split(" S ").next().unwrap_or("").to_string() }
 
+/// the in-tree checker's verdict on the proof with ONE step replaced (cfg hook `verif_with_replaced`); a panic counts
+/// as a rejection
+fn real_on_altered(eg: &EGraph, store: &ProofStore, root: ProofId, target: ProofId, just: Justification, l: TermId, r: TermId, rep: &mut Report) -> bool {
+    let altered = store.verif_with_replaced(target, just, l, r);
+    match std::panic::catch_unwind(std::panic::AssertUnwindSafe(|| eg.verif_check_proof(&altered, root).is_ok())) {
+        Ok(v) => v,
+        Err(_) => { rep.count("checker_panics_on_altered_proofs(counted as rejections)", 1); false }
+    }
+}
+
 pub fn run(ctx: &Ctx) -> Report {
     let mut rep = Report::new("C12", "generated programs (constructors, rewrites incl. non-linear ones, rules, unions, lattice functions, runs) in proof mode; every pair of ground terms up to depth 1 as an equality fact and every ground term as an existence fact: prove vs check; every proof exported to the Lean checker; single-point mutations of the exported proof; rule / fact removal re-checked by the in-tree checker through the cfg hook. non-trivial = a proof with >= 1 Rule and >= 1 Congr/Trans step, a false fact, or a mutation/alteration that must be rejected (distinct by (program, fact))");
     let mut rng = Rng::new(ctx.seed ^ 0xC12);
     let n = ctx.n(40, 800);
     // expectation on the Lean checker: 1 = must accept, 0 = mutation (rejected unless still derivable), -1 = must reject
     let mut lean_lines: Vec<String> = vec![]; let mut lean_expect: Vec<(i8, String, serde_json::Value)> = vec![];
+    // for altered PROOF OBJECTS: (index into lean_expect, what the in-tree checker said about the same alteration, whether
+    // every step of the proof is modelled so that the two checkers must agree in both directions)
+    let mut real_says: Vec<(usize, bool, bool)> = vec![];
     // directed: a global `let` used by a rule and by the proved fact (the checker's global bindings)
     {
         let prog = "(sort E)\n(constructor A () E)\n(constructor B () E)\n(constructor G (E) E)\n(ruleset r0)\n(let g (G (A)))\n(B)\n(rule ((= x (G y))) ((union x (B))) :ruleset r0 :name \"toB\")\n(run r0 1)";
@@ -326,15 +345,24 @@ pub fn run(ctx: &Ctx) -> Report {
                     for (mi, st) in ex.steps.iter().enumerate() {
                         if st.0 != "rule" || mi % 2 != 0 && ex.steps.len() > 12 { continue; }
                         let np = st.1[1];
+                        let orig = proof_store.get(ex.ids[mi]).clone();
                         if np >= 1 { let mut m = ex.steps.clone(); m[mi].1.remove(1 + np); m[mi].1[1] = np - 1;
-                            lean_lines.push(format!("{}{}", term_line(&ex.line), render(&[], &m).trim_start_matches("pk check"))); lean_expect.push((-1, format!("proof of {f} with the last premise of Rule step {mi} dropped"), prog())); }
+                            lean_lines.push(format!("{}{}", term_line(&ex.line), render(&[], &m).trim_start_matches("pk check"))); lean_expect.push((-1, format!("proof of {f} with the last premise of Rule step {mi} dropped"), prog()));
+                            if let Justification::Rule { name, premise_proofs, substitution } = orig.justification() { let mut pp = premise_proofs.clone(); pp.pop();
+                                let ok = real_on_altered(&pr, &proof_store, proof_id, ex.ids[mi], Justification::Rule { name: name.clone(), premise_proofs: pp, substitution: substitution.clone() }, orig.lhs(), orig.rhs(), &mut rep);
+                                real_says.push((lean_expect.len() - 1, ok, true)); } }
                         let mut m = ex.steps.clone(); m[mi].1[0] = ex.nrules;
                         lean_lines.push(format!("{}{}", term_line(&ex.line), render(&[], &m).trim_start_matches("pk check"))); lean_expect.push((-1, format!("proof of {f} with Rule step {mi} naming a rule the program does not have"), prog()));
+                        if let Justification::Rule { premise_proofs, substitution, .. } = orig.justification() {
+                            let ok = real_on_altered(&pr, &proof_store, proof_id, ex.ids[mi], Justification::Rule { name: "no-such-rule-zz9".into(), premise_proofs: premise_proofs.clone(), substitution: substitution.clone() }, orig.lhs(), orig.rhs(), &mut rep);
+                            real_says.push((lean_expect.len() - 1, ok, true)); }
                     }
                     let structural = ex.steps.iter().filter(|s| s.0 != "leaf").count();
                     if !ex.rules.is_empty() && structural > 0 { rep.note_nontrivial(&(&full, &f)); }
                     rep.count("proof_steps_exported", ex.steps.len() as u64);
                     lean_lines.push(ex.line.clone()); lean_expect.push((1, format!("proof of {f}"), prog()));
+                    // both checkers must agree in BOTH directions only when no step is a hypothesis of the Lean checker
+                    let all_modelled = ex.steps.iter().all(|s| s.0 != "leaf");
                     // mutations of the exported object
                     for (mi, st) in ex.steps.iter().enumerate() {
                         let mut m = ex.steps.clone();
@@ -347,9 +375,19 @@ pub fn run(ctx: &Ctx) -> Report {
                         if mi % 3 != 0 && ex.steps.len() > 12 { continue; }
                         lean_lines.push(format!("{}{}", term_line(&ex.line), render(&[], &m).trim_start_matches("pk check")));
                         lean_expect.push((0, format!("{} step {mi} of the proof of {f} mutated", st.0), prog()));
+                        // the same alteration of the real proof object, shown to the in-tree checker
+                        let orig = proof_store.get(ex.ids[mi]).clone();
+                        let alt = match orig.justification() {
+                            Justification::Trans(a, b) => Some((Justification::Trans(*b, *a), orig.lhs(), orig.rhs())),
+                            Justification::Congr { proof, child_index, child_proof } => Some((Justification::Congr { proof: *proof, child_index: child_index + 1, child_proof: *child_proof }, orig.lhs(), orig.rhs())),
+                            Justification::Sym(a) => Some((Justification::Sym(*a), orig.rhs(), orig.lhs())),
+                            _ => None,
+                        };
+                        if let Some((j, l, r)) = alt { let ok = real_on_altered(&pr, &proof_store, proof_id, ex.ids[mi], j, l, r, &mut rep); real_says.push((lean_expect.len() - 1, ok, all_modelled)); }
                     }
                     // substituted term in the conclusion
-                    if ex.nterms >= 2 { let mut m = ex.steps.clone(); let last = m.len() - 1; if m[last].0 != "leaf" { m[last].3 = (m[last].3 + 1) % ex.nterms; if m[last].3 != ex.steps[last].3 { lean_lines.push(format!("{}{}", term_line(&ex.line), render(&[], &m).trim_start_matches("pk check"))); lean_expect.push((0, format!("conclusion of the proof of {f} substituted"), prog())); } } }
+                    if ex.nterms >= 2 { let mut m = ex.steps.clone(); let last = m.len() - 1; if m[last].0 != "leaf" { m[last].3 = (m[last].3 + 1) % ex.nterms; if m[last].3 != ex.steps[last].3 { lean_lines.push(format!("{}{}", term_line(&ex.line), render(&[], &m).trim_start_matches("pk check"))); lean_expect.push((0, format!("conclusion of the proof of {f} substituted"), prog()));
+                        if let Some(nt) = ex.term_ids[m[last].3] { let orig = proof_store.get(ex.ids[last]).clone(); let ok = real_on_altered(&pr, &proof_store, proof_id, ex.ids[last], orig.justification().clone(), orig.lhs(), nt, &mut rep); real_says.push((lean_expect.len() - 1, ok, all_modelled)); } } } }
                     // alterations of the checking program: remove a rule the proof uses / remove a top-level fact
                     if pi % 2 == 0 {
                         let mut used: Vec<String> = ex.rules.clone(); used.sort(); used.dedup();
@@ -397,6 +435,13 @@ pub fn run(ctx: &Ctx) -> Report {
             if m[i] != "true" && m[i] != "false" { rep.violate("correspondence", "c12-lean-driver-bad-line", format!("the Lean driver could not read the export of the {what}: {}", m[i]), prog.clone()); continue; }
             if *want == 1 && !got { rep.violate("correspondence", "c12-lean-checker-rejects-real-proof", format!("the in-tree checker accepted the {what} but the Lean checker (C12_sound / C12_rule_sound) rejects it: {}", m[i]), prog.clone()); }
             if *want == 0 { if got { rep.count("mutations_still_derivable", 1); } else { rep.count("mutations_rejected", 1); } }
+            if let Some((_, real_ok, both)) = real_says.iter().find(|(k, _, _)| *k == i) {
+                rep.count("altered_proof_objects_shown_to_both_checkers", 1);
+                if *real_ok && !got { rep.violate("property", "c12-accepts-altered-proof", format!("the in-tree checker ACCEPTS the {what}, which the Lean checker rejects (an accepted proof proves only what is derivable: C12_sound / C12_rule_sound)"), prog.clone()); }
+                else if !*real_ok && got && *both { rep.violate("correspondence", "c12-lean-accepts-what-checker-rejects", format!("the Lean checker accepts the {what}, the in-tree checker rejects it, and every step of the proof is modelled"), prog.clone()); }
+                else if *real_ok && got { rep.count("altered_proof_objects_still_derivable(both accept)", 1); }
+                else { rep.count("altered_proof_objects_rejected_by_both", 1); }
+            }
             if *want == -1 { if got { rep.violate("correspondence", "c12-lean-checker-accepts-unjustified-rule-step", format!("the Lean checker accepts the {what}, which the in-tree checker rejects (or which C12_dropped_premise_rejected / C12_rule_missing_rejected exclude)"), prog.clone()); } else { rep.count("unjustified_rule_steps_rejected_by_both", 1); } }
         }
     }
